@@ -34,6 +34,7 @@ TRUSTED_BASE = [
     "model coq/SM2/SM2Model.v, coq/SM2/DER.v written by hand from sm2/sm2.go and encoding/asn1; tied by the correspondence run of this check",
     "specification coq/SM2/SM2Spec.v typed from GM/T 0003.4 over EC/SM2Curve.v and SM3/SM3Spec.v; the python oracle reproduces the GM/T 0003.5 encryption example",
     "extraction: ExtrOcamlBasic + ExtrOcamlZBigInt (positive/N/Z -> zarith Big_int_Z and its arithmetic constants); no other Extract directive; OCaml 4.13.1, zarith 1.12, dune; runner ocaml/sm2/main.ml",
+    "consumer legs use the existing hook gmtls.VerifECCProcessClientKeyExchange (gmtls/verif_handshake_verif.go) and the public PKCS#7 API; the symmetric layer of PKCS#7 belongs to C17",
     "Go driver harness/cmd/c02 (deterministic counting reader, deadline for hang detection, mutation catalogue, hard-coded invalid-curve points of order 2, 3, 4)",
     "translator targets sm2 (build-ec) and sm2sig (harness/cmd/gen/target_sm2sig.go): curve constants, nonce length, mode values, length limits read from the source into coq/Gen/*.v (theorem C02_source_constants_tied)",
     "python oracle checks/sm2_oracle.py (SM3, affine EC, KDF, encrypt/decrypt per GM/T 0003.4, strict DER of the ciphertext structure) for the predicate",
@@ -47,7 +48,7 @@ ASSUMPTIONS = [
 RULE = ("seeded generator (VERIF_SEED): keys {1,2,n-2, random, leading-zero d/X/Y}; plaintext lengths 0..4097 dense at 32k-1,32k,32k+1; modes 0,1 and others; raw and ASN.1; "
         "nonce streams {random, k=1, all-ff, k=n-1, short, hard-coded nonces giving leading-zero x1,y1,x2,y2}; every honest ciphertext decrypted back (and with the other mode); "
         "rejection catalogue on base ciphertexts: single-byte changes (incl. the 04 prefix), truncations, extensions, C1 replaced by small-order points of other curves / off-curve / "
-        "(0,0) / coordinates >= p / (x+p,y) with and without recomputed C3,C2, wrong key, ASN.1 structural variants; corpus: regression cases D33 (prefix byte) and D34 (x >= p). "
+        "(0,0) / coordinates >= p / (x+p,y) with and without recomputed C3,C2, wrong key, ASN.1 structural variants; corpus: regression cases D33 (prefix byte) and D34 (x >= p); consumer legs: T = gmtls eccKeyAgreementGM.processClientKeyExchange (48/47/49-byte secrets, altered C3/C2/C1, other key, truncations, length-prefix errors), Q = PKCS#7 enveloped data with SM2 key transport (altered C3/C2/C1, prefix, other key). "
         "Non-trivial: every case; distinct = distinct case text")
 
 
@@ -123,6 +124,30 @@ def predicate(f, io):
         if io[0] != "ok":
             return False, "decryption rejected a ciphertext that GM/T 0003.4 decrypts"
         return o.unhex(io[1]) == m, "decryption returned a plaintext different from the standard's"
+    if op == "T":
+        # gmtls eccKeyAgreementGM.processClientKeyExchange: a premaster secret only for a ciphertext the standard decrypts to 48 bytes
+        d, body = o.zint(f[2]), o.unhex(f[3])
+        m = None
+        if len(body) >= 2 and (body[0] << 8 | body[1]) == len(body) - 2:
+            raw = o.asn1_ciphertext_decode(body[2:])
+            if raw is None:
+                raw = _lax_decode(body[2:])
+            if raw is not None:
+                m = o.decrypt(d, raw, 0)
+        if m is None or len(m) != 48:
+            return io[0] == "err", "the TLS key exchange accepted a ClientKeyExchange whose ciphertext GM/T 0003.4 rejects (decryption error swallowed) or whose secret is not 48 bytes"
+        if io[0] != "ok":
+            return False, "the TLS key exchange rejected a valid ClientKeyExchange"
+        return o.unhex(io[1]) == m, "the TLS key exchange returned a premaster secret different from the decrypted plaintext"
+    if op == "Q":
+        # PKCS#7 enveloped data: the content comes out iff the SM2-wrapped key decrypts per the standard
+        d, mode, ek, content, p7 = o.zint(f[2]), int(f[3]), o.unhex(f[4]), o.unhex(f[5]), o.unhex(f[6])
+        if ek not in p7:
+            return False, "case inconsistent: wrapped key not inside the envelope"
+        key = o.decrypt(d, ek, 1 if mode == 1 else 0)
+        if key is None:
+            return io[0] == "err", "PKCS#7 DecryptSM2 delivered content although the wrapped key does not decrypt (altered C1/C2/C3 or other key)"
+        return io[0] == "ok" and o.unhex(io[1]) == content, "PKCS#7 DecryptSM2 failed or returned other content for a valid envelope"
     if op == "M":
         raw = o.unhex(f[2])
         if len(raw) < 97:
